@@ -379,7 +379,7 @@ Urgent(n, c) == S(n, c).ph \in {"idone", "adj", "upd", "rmc", "rmk", "ret", "end
 UrgentSet == {x \in RealNodes \X CO : Urgent(x[1], x[2])}
 Hold == Coarse /\ UrgentSet # {}
 Chosen == CHOOSE x \in UrgentSet : TRUE
-SessStep(n, c) == IF Hold THEN <<n, c>> = Chosen /\ MainStep(n, c) ELSE GoStep(n, c) \/ MainStep(n, c)
+SessStepH(n, c) == IF Hold THEN <<n, c>> = Chosen /\ MainStep(n, c) ELSE GoStep(n, c) \/ MainStep(n, c)
 
 (***************************************************************************)
 (* Node-level goroutines                                                   *)
@@ -418,10 +418,16 @@ PollTick(n) ==
      ELSE UNCHANGED <<ss, wit>>
   /\ UNCHANGED <<ctx, listed, adj, table, req, co, mode, dl, ls>>
 
-NodeStep(n) == ~Hold /\ (OwnUpdate(n) \/ Rebuild(n) \/ KATick(n) \/ PollTick(n))
+NodeStepH(n) == ~Hold /\ (OwnUpdate(n) \/ Rebuild(n) \/ KATick(n) \/ PollTick(n))
 
+\* Coarse also lets node a finish what it can do before node b moves (the nodes interact through the queues only)
+AInternal == "a" \in RealNodes /\ (NodeStepH("a") \/ (\E c \in CO : SessStepH("a", c)) \/ (~Hold /\ \E k \in Links : DialStep(k)))
+Turn(n) == ~Coarse \/ n = "a" \/ ~ENABLED AInternal
+SessStep(n, c) == Turn(n) /\ SessStepH(n, c)
+NodeStep(n) == Turn(n) /\ NodeStepH(n)
+LisTurn(k) == Turn("b") /\ LisStep(k)
 Internal == \/ \E n \in RealNodes : NodeStep(n) \/ (\E c \in CO : SessStep(n, c))
-            \/ ~Hold /\ \E k \in Links : DialStep(k) \/ LisStep(k)
+            \/ ~Hold /\ \E k \in Links : DialStep(k) \/ LisTurn(k)
 
 (***************************************************************************)
 (* Time                                                                    *)
@@ -529,7 +535,7 @@ Spec == Init /\ [][Next]_vars
 
 Fairness == /\ WF_vars(Tick)
             /\ \A n \in RealNodes : WF_vars(NodeStep(n)) /\ \A c \in CO : WF_vars(SessStep(n, c))
-            /\ \A k \in Links : WF_vars(DialStep(k)) /\ WF_vars(LisStep(k))
+            /\ \A k \in Links : WF_vars(~Hold /\ DialStep(k)) /\ WF_vars(~Hold /\ LisTurn(k))
 FairSpec == Spec /\ Fairness
 
 (***************************************************************************)
